@@ -193,6 +193,13 @@ STATIC_CORES = [
     ("pos-after-named", "local f(a, b) = a; f(a=1, 2)"), ("computed-import", 'import "a" + "b"'),
     ("textblock-import", "import |||\n a\n|||"), ("dup-local-mb", 'local a = "é", a = 2; a'),
     ("dup-local-lines", "local a = 1,\r\n\ta = 2; a"),
+    # two-label diagnostics whose first definition comes after members that are not fields
+    ("dup-field-after-local", "{ local s = 10, width: 3 * s, width: 4 * s }"),
+    ("dup-field-after-assert", "{ local s = 1, assert true, a: s, b: 2, c: 3, a: 4 }"),
+    ("dup-field-string-ident", '{ local s = 1, local t = 2, "a": s, a: t }'),
+    ("dup-object-local", "{ x: 1, local a = 1, y: 2, local a = 2 }"),
+    ("dup-param-default", "function(a, b = 1, c = 2, b = 3) a"),
+    ("dup-field-last-of-many", "{ assert true, local q = 0, a: 1, b: 2, c: 3, d: 4, e: 5, e: 6 }"),
 ]
 RUNTIME_CORES = [
     ("explicit", 'error "boom"'), ("explicit-mb", 'error "é\U0001F600"'), ("div0", "1 / 0"), ("index-range", "[1][5]"),
